@@ -105,13 +105,14 @@ PROPS["C07"] = dict(
 )
 
 verus_unit("f64v", "f64", ["C07"], ["f64::BaseElement::new", "f64::Mul::mul", "traits::FieldElement::square", "f64::exp", "f64::exp_acc", "f64::inv", "f64::exp7", "f64::Div::div", "f64::Neg::neg", "f64::StarkField::as_int", "f64::From<u32>"])
-verus_unit("f62v", "f62", ["C07"], ["f62::mul", "f62::add", "f62::sub", "f62::normalize", "f62::Add/Sub/Mul/Neg", "f62::new", "f62::as_int", "f62::double", "square", "f62::eq", "f62::exp"])
+verus_unit("f62v", "f62", ["C07"], ["f62::mul", "f62::add", "f62::sub", "f62::normalize", "f62::Add/Sub/Mul/Neg", "f62::new", "f62::as_int", "f62::double", "square", "f62::eq", "f62::exp", "traits::FieldElement::exp_vartime (u64 instantiation)"])
 
 for _u, _fns in (("f64x", ["f64::ExtensibleField<2>::{mul,square,mul_base,frobenius}", "f64::ExtensibleField<3>::{mul,square,mul_base,frobenius}"]),
                  ("f62x", ["f62::ExtensibleField<2>::{mul,mul_base,frobenius}", "f62::ExtensibleField<3>::{mul,mul_base,frobenius}"]),
                  ("f128x", ["f128::ExtensibleField<2>::{mul,mul_base,frobenius}"])):
     verus_unit(_u, _u, ["C08"], _fns)
 
+verus_unit("fconsts", "fconsts", ["C07"], ["f64/f62/f128: MODULUS, TWO_ADICITY, TWO_ADIC_ROOT_OF_UNITY, GENERATOR"])
 verus_unit("extinv", "extinv", ["C08"], ["QuadExtension::inv", "CubeExtension::inv"])
 
 PROPS["C08"] = dict(
